@@ -118,8 +118,10 @@ def pow_pauli_combination(
 
     ci = (s + t) / 2
     if s == t:
-        # v is near zero, only one term in binomial expansion survives
-        cxyz = exponent * ai ** (exponent - 1)
+        # Either v is near zero and only one term in the binomial expansion survives, or the
+        # odd part of the expansion cancels exactly.
+        v_is_zero = v == 0 if isinstance(v, sympy.Basic) else abs(v) < 1e-8
+        cxyz = exponent * ai ** (exponent - 1) if v_is_zero else 0
     else:
         # v is non-zero, account for all terms of binomial expansion
         cxyz = (s - t) / 2
